@@ -38,3 +38,6 @@ pub fn sym3_chol_solve(l: [f64; 6], b: [f64; 3]) -> [f64; 3] {
     x
 }
 pub use crate::solver::core::cones::{verif_newton_raphson_powcone, verif_wright_omega};
+// the cone types and the (public) Cone trait live in a crate-private module
+pub use crate::solver::core::cones::{Cone, ExponentialCone, GenPowerCone, PowerCone};
+pub use crate::solver::core::ScalingStrategy;
